@@ -107,6 +107,22 @@ async function op_read(req) {
     return result;
 }
 
+async function op_read_file(req) {
+    // real file: 'file_stream' -> fs.createReadStream (64 KiB chunks), 'bulk' -> fs.readFile
+    const fs = require('fs');
+    let result = {records: null, warnings: null, error: null};
+    try {
+        let it = req.mode === 'bulk'
+            ? new rbql_csv.CSVRecordIterator(null, req.path, req.encoding, req.dlm, req.policy, false, req.comment || null)
+            : new rbql_csv.CSVRecordIterator(fs.createReadStream(req.path), null, req.encoding, req.dlm, req.policy, false, req.comment || null);
+        result.records = await it.get_all_records();
+        result.warnings = it.get_warnings();
+    } catch (e) {
+        result.error = err_info(e);
+    }
+    return result;
+}
+
 async function op_write(req) {
     // req: {table, dlm, policy, linesep, encoding}
     let chunks = [];
@@ -182,7 +198,7 @@ function op_like(req) {
     return {res: out};
 }
 
-const OPS = {split: op_split, read: op_read, write: op_write, query_table: op_query_table, like: op_like,
+const OPS = {split: op_split, read: op_read, read_file: op_read_file, write: op_write, query_table: op_query_table, like: op_like,
              ping: async () => ({pong: true, version: rbql.version})};
 
 async function main() {
